@@ -343,9 +343,11 @@ func (c wcase) monitor(mon *lib.Monitor, out wout) {
 				continue
 			}
 			if !W.Nil {
+				// inside the writable fields: a writable path, or a path below one (a parent of writable
+				// paths also names fields that are not writable)
 				rel := false
 				for _, w := range W.Paths {
-					if mt.Related(mt.Segs(w), mt.Segs(m)) {
+					if mt.IsPrefix(mt.Segs(w), mt.Segs(m)) {
 						rel = true
 					}
 				}
@@ -475,8 +477,9 @@ func (c wcase) monitor(mon *lib.Monitor, out wout) {
 		if c.M.Nil {
 			want = w // nil mask: the writable part of the message is replaced
 		} else {
+			// as a set of fields {f, f.d} is {f}: only the outermost paths "name" a field
 			exact, parentInSrc := false, false
-			for _, m := range c.M.Paths {
+			for _, m := range outermost(c.M.Paths) {
 				ms := mt.Segs(m)
 				if len(ms) == len(p) && mt.IsPrefix(ms, p) {
 					exact = true
@@ -536,6 +539,23 @@ func (c wcase) monitor(mon *lib.Monitor, out wout) {
 			mon.Violate(site+"/frame/"+frameClass(p)+"/message-presence", "presence of message "+k+" changed although no mask path is related to it", c, fmt.Sprint(hasMsgAt(before, p)), fmt.Sprint(hasMsgAt(after, p)))
 		}
 	}
+}
+
+// outermost drops the paths that lie inside another path of the list.
+func outermost(ps []string) []string {
+	var out []string
+	for _, p := range ps {
+		inside := false
+		for _, q := range ps {
+			if qs, psg := mt.Segs(q), mt.Segs(p); len(qs) < len(psg) && mt.IsPrefix(qs, psg) {
+				inside = true
+			}
+		}
+		if !inside {
+			out = append(out, p)
+		}
+	}
+	return out
 }
 
 func prefixOverlap(ps []string) bool {
